@@ -407,13 +407,32 @@ pub fn grid_strategy() -> impl Strategy<Value = TupleCase> {
             TupleCase { term: Value::Tuple(v), repr }
         },
     );
+    // a protocol tag shifted by a multiple of 256 (or negated), at the arity of the real operation: must be refused
+    let aliased = (
+        prop::sample::select((0..CONTROL_TABLE.len()).collect::<Vec<_>>()),
+        prop::sample::select(vec![256i128, 512, -256, 65536, 1 << 24, 1 << 31, 1 << 32, (1 << 32) + 256, 1 << 56, -(1 << 32), 1 << 64]),
+        any::<bool>(),
+        prop::collection::vec(elem(), 9),
+        arb_unlink_id(),
+    )
+        .prop_map(|(r, off, negate, els, uid)| {
+            let row = &CONTROL_TABLE[r];
+            let k = row.2.saturating_sub(1).min(9);
+            let tag = if negate && row.1 != 0 { -(row.1 as i128) } else { row.1 as i128 + off };
+            let mut v = vec![Value::int(tag)];
+            v.extend(els.into_iter().take(k));
+            if (row.1 == 35 || row.1 == 36) && v.len() == 4 {
+                v[1] = uid;
+            }
+            TupleCase { term: Value::Tuple(v), repr: vec![] }
+        });
     let junk = prop_oneof![
         elem().prop_map(|v| TupleCase { term: v, repr: vec![] }),
         Just(TupleCase { term: Value::Tuple(vec![]), repr: vec![] }),
         (prop_oneof![Just(Value::int(256)), Just(Value::int(-1)), Just(Value::atom("link")), Just(Value::float(1.0)), Just(Value::int(1 << 70))], elem())
             .prop_map(|(t, e)| TupleCase { term: Value::Tuple(vec![t, e.clone(), e]), repr: vec![] }),
     ];
-    prop_oneof![5 => tagged, 6 => known, 1 => junk]
+    prop_oneof![5 => tagged, 6 => known, 1 => junk, 1 => aliased]
 }
 
 fn row_strategy() -> impl Strategy<Value = RowCase> {
